@@ -396,6 +396,20 @@ func c16Run(c fw.Case) fw.Verdict {
 		}
 	}
 	e.W.Flush()
+	// a closing write, issued when every merge has been announced: a subscriber that has received its
+	// EventWrite has received every earlier event too (one FIFO per subscriber), however far behind it was
+	if op, err := ApplyOp(bg, sP, honestOp(typ, nw+7)); err == nil {
+		acked = append(acked, op.GetEntry().GetHash().String())
+		atomic.AddInt64(&written, 1)
+		if lockstep {
+			for _, s := range subs {
+				select {
+				case <-s.ack:
+				case <-time.After(20 * time.Second):
+				}
+			}
+		}
+	}
 	// let subscribers drain
 	deadline := time.Now().Add(30 * time.Second)
 	for time.Now().Before(deadline) {
